@@ -33,6 +33,8 @@ def abs (b : WBuf) : Bytes := b.prev.drop b.p ++ b.curr
 /-- representation invariant (`b.p` is a valid slice index of `b.prev`) -/
 def WF (b : WBuf) : Prop := b.p ≤ b.prev.length
 
+instance (b : WBuf) : Decidable b.WF := inferInstanceAs (Decidable (b.p ≤ b.prev.length))
+
 /-- `extend`: `none` models `panic("inconsistent writeBuffer state")`. -/
 def extend (b : WBuf) (curr : Bytes) : Option WBuf :=
   if b.curr.length != 0 then none else some { b with curr := curr }
